@@ -869,3 +869,44 @@ Proof.
   unfold fit_select, caches. cbn [seq map min_reduce min_reduce_go]. f_equal.
   induction items as [|x r IH]; [reflexivity|]. cbn [map filter fst Nat.eqb snd]. f_equal. exact IH.
 Qed.
+
+(* ================================================================================================================ *)
+(* the selection rule of the model IS the source's (translated) rule                                                 *)
+(* ================================================================================================================ *)
+Lemma better_src_strict k s b : better_src k s b = (s <? b)%Z.
+Proof. destruct k as [| | | |i]; try reflexivity. destruct i as [|[|i]]; reflexivity. Qed.
+
+Lemma reduce_less_strict a b : src_c18_reduce_less a b = (a <? b)%Z.
+Proof. reflexivity. Qed.
+
+Lemma cache_update_src_eq k c sf : cache_update_src k c sf = cache_update c sf.
+Proof.
+  destruct c as [[s f]|]; [|reflexivity]. unfold cache_update_src, cache_update. rewrite better_src_strict. reflexivity.
+Qed.
+
+Lemma fold_update_src_eq k l : forall c, fold_left (cache_update_src k) l c = fold_left cache_update l c.
+Proof. induction l as [|x l IH]; intro c; [reflexivity|]. cbn [fold_left]. rewrite cache_update_src_eq. apply IH. Qed.
+
+Lemma best_src_eq k l : best_src k l = best l.
+Proof. unfold best_src, best. apply fold_update_src_eq. Qed.
+
+Lemma cache_less_src_eq a b : cache_less_src a b = cache_less a b.
+Proof. destruct a as [[s f]|], b as [[s' f']|]; reflexivity. Qed.
+
+Lemma min_reduce_go_src_eq rest : forall cur, min_reduce_go_src cur rest = min_reduce_go cur rest.
+Proof.
+  induction rest as [|c r IH]; intro cur; [reflexivity|]. cbn [min_reduce_go_src min_reduce_go].
+  rewrite cache_less_src_eq. destruct (cache_less c cur); apply IH.
+Qed.
+
+Lemma fit_select_src_eq k n sched : fit_select_src k n sched = fit_select n sched.
+Proof.
+  unfold fit_select_src, fit_select, caches_src, caches.
+  assert (E : map (fun t => best_src k (map snd (filter (fun a => Nat.eqb (fst a) t) sched))) (seq 0 n)
+            = map (fun t => best (map snd (filter (fun a => Nat.eqb (fst a) t) sched))) (seq 0 n))
+    by (apply map_ext; intro t; apply best_src_eq).
+  rewrite E. unfold min_reduce_src, min_reduce.
+  destruct (map (fun t => best (map snd (filter (fun a => Nat.eqb (fst a) t) sched))) (seq 0 n)) as [|c r]; [reflexivity|].
+  apply min_reduce_go_src_eq.
+Qed.
+
